@@ -16,7 +16,7 @@ from pyvc.api import (proof, bounded, load, model, fresh_str, fresh_int,
                       fresh_bits,
                       fresh_bool, pick, assume, check, implies, conj, disj,
                       neg, in_lang, re_lang, parses_as_int, int_of, strlen,
-                      rng)
+                      rng, unmodelled)
 
 NU = 'oslo_utils/netutils.py'
 
@@ -28,6 +28,8 @@ class FakeNetaddr:
     def __init__(self, tag):
         self.tag = tag
         self.calls = []
+        self.options = []
+        self.seen = []
         self.n = 0
 
         class AddrFormatError(Exception):
@@ -56,20 +58,20 @@ class FakeNetaddr:
     # caller that switches on a parsing option (flags, expand_partial, ...)
     # no longer asks netaddr the documented question
     def valid_ipv4(self, addr, *args, **kw):
-        self.options = getattr(self, 'options', []) + [('valid_ipv4', args,
+        self.options = self.options + [('valid_ipv4', args,
                                                         kw)]
         self._outcome('valid_ipv4', allow_type_error=False)
         return fresh_bool('valid_ipv4_result_%d' % self.n)
 
     def valid_ipv6(self, addr, *args, **kw):
-        self.options = getattr(self, 'options', []) + [('valid_ipv6', args,
+        self.options = self.options + [('valid_ipv6', args,
                                                         kw)]
-        self.seen = getattr(self, 'seen', []) + [addr]
+        self.seen = self.seen + [addr]
         self._outcome('valid_ipv6', allow_type_error=False)
         return fresh_bool('valid_ipv6_result_%d' % self.n)
 
     def IPNetwork(self, addr, *args, **kw):
-        self.options = getattr(self, 'options', []) + [('IPNetwork', args,
+        self.options = self.options + [('IPNetwork', args,
                                                         kw)]
         self._outcome('IPNetwork')
         return FakeNetwork(self)
@@ -144,11 +146,43 @@ def ipv6_scope_id_rule():
                 out = out + '%' + x
             return out
 
-        def rsplit(self, sep, maxsplit):
-            return [self._join(parts[:-1]), parts[-1]]
+        def rsplit(self, sep, maxsplit=-1):
+            if sep != '%':
+                unmodelled('rsplit(%r)' % (sep,))
+            if maxsplit == 1:
+                return [self._join(parts[:-1]), parts[-1]]
+            if maxsplit == -1:
+                return list(parts)
+            unmodelled('rsplit maxsplit=%r' % (maxsplit,))
 
-        def split(self, sep, maxsplit):
-            return [parts[0], self._join(parts[1:])]
+        def split(self, sep, maxsplit=-1):
+            if sep != '%':
+                unmodelled('split(%r)' % (sep,))
+            if maxsplit == 1:
+                return [parts[0], self._join(parts[1:])]
+            if maxsplit == -1:
+                return list(parts)
+            unmodelled('split maxsplit=%r' % (maxsplit,))
+
+        def rpartition(self, sep):
+            if sep != '%':
+                unmodelled('rpartition(%r)' % (sep,))
+            return (self._join(parts[:-1]), '%', parts[-1])
+
+        def partition(self, sep):
+            if sep != '%':
+                unmodelled('partition(%r)' % (sep,))
+            return (parts[0], '%', self._join(parts[1:]))
+
+        def __contains__(self, sub):
+            if sub == '%':
+                return True
+            unmodelled('%r in address' % (sub,))
+
+        def count(self, sub):
+            if sub == '%':
+                return len(parts) - 1
+            unmodelled('count(%r)' % (sub,))
 
         def __bool__(self):
             return True
@@ -236,49 +270,20 @@ def integer_range_validators():
     check('range/answers-a-boolean', r == True or r == False)  # noqa: E712
 
 
-@proof('C11', targets=[(NU, 'is_valid_mac')],
-       assumes=['A-RE-UNIVERSE', 'A-LOWER: str.lower maps no character '
-                'outside [0-9A-Fa-f:] into [0-9a-f:] (validated exhaustively '
-                'over all code points by the bounded family)'])
+@proof('C11', targets=[(NU, 'is_valid_mac')], native=False,
+       assumes=['str.lower uninterpreted; the pattern is translated from '
+                'its CPython parse tree (regex.py)'])
 def mac_pattern_language():
-    """is_valid_mac(s) is re.match(m, s.lower()); the lemma is about m: the
-    lower-cased strings it accepts are exactly six colon-separated pairs of
-    lower-case hex digits (nothing before, nothing after)."""
+    """is_valid_mac(s) holds exactly when the lower-cased text is six
+    colon-separated pairs of hex digits, nothing before, nothing after -
+    however the function spells its regular expression (inline pattern,
+    precompiled, match + \\Z or fullmatch)."""
     N = load(NU)
-    # the pattern literal is read from the function's source each run
-    mode, pattern, flags = mac_pattern_from_source(N)
-    x = fresh_str('lowered')
-    accepted = in_lang(x, re_lang(pattern, flags, mode))
-    spec = in_lang(x, re_lang('([0-9a-f]{2}:){5}[0-9a-f]{2}'))
-    check('mac/accepts-only-six-hex-pairs', implies(accepted, spec))
-    check('mac/accepts-every-six-hex-pairs', implies(spec, accepted))
-
-
-def mac_pattern_from_source(N):
-    """(mode, pattern): which re function is_valid_mac applies to which
-    pattern literal, observed by running the real function once against a
-    recording `re`."""
-    captured = []
-
-    class FakeRe:
-        def match(self, pattern, string, flags=0):
-            captured.append(('match', pattern, flags))
-            return None
-
-        def search(self, pattern, string, flags=0):
-            captured.append(('search', pattern, flags))
-            return None
-
-        def fullmatch(self, pattern, string, flags=0):
-            captured.append(('full', pattern, flags))
-            return None
-    old = N.re
-    try:
-        N.re = FakeRe()
-        N.is_valid_mac('x')
-    finally:
-        N.re = old
-    return captured[0]
+    x = fresh_str('address')
+    r = N.is_valid_mac(x)
+    spec = in_lang(x.lower(), re_lang('([0-9a-f]{2}:){5}[0-9a-f]{2}'))
+    check('mac/accepts-only-six-hex-pairs', implies(bool(r), spec))
+    check('mac/accepts-every-six-hex-pairs', implies(spec, bool(r)))
 
 
 @proof('C11', targets=[(NU, 'is_valid_mac')])
